@@ -264,16 +264,22 @@ Qed.
 
 (* the ISO rendering of an instant parses back to the instant truncated to microseconds, shifted by the seconds of
    the zone offset that "Z07:00" cannot express; the environment (formats, zone) plays no role *)
-Lemma iso_roundtrip_general : forall offset offset' e t,
+Lemma iso_roundtrip_general_with : forall fill offset offset' e t,
   in_year_range (f_year (fields_of offset t)) -> -86400 < offset (unix_of t) < 86400 ->
-  datetime_from_string offset' e (iso offset t)
+  datetime_from_string_with fill offset' e (iso offset t)
   = Some (t - t mod 1000 + (offset (unix_of t) - 60 * Z.quot (offset (unix_of t)) 60) * giga).
 Proof.
-  intros offset offset' e t Hy Hoff. unfold iso, datetime_from_string.
+  intros fill offset offset' e t Hy Hoff. unfold iso, datetime_from_string_with.
   destruct (fields_of_spec offset t) as (V & W & Hns). cbv zeta in V, W, Hns.
   destruct (parse_iso_of_fields _ _ V Hy Hoff) as (P & T). rewrite T, P. f_equal.
   rewrite W, Hns. unfold wall, unix_of, giga. Z.to_euclidean_division_equations; lia.
 Qed.
+
+Lemma iso_roundtrip_general : forall offset offset' e t,
+  in_year_range (f_year (fields_of offset t)) -> -86400 < offset (unix_of t) < 86400 ->
+  datetime_from_string offset' e (iso offset t)
+  = Some (t - t mod 1000 + (offset (unix_of t) - 60 * Z.quot (offset (unix_of t)) 60) * giga).
+Proof. intros offset offset' e t. apply iso_roundtrip_general_with. Qed.
 
 Lemma iso_roundtrip : forall offset offset' e t,
   in_year_range (f_year (fields_of offset t)) -> -86400 < offset (unix_of t) < 86400 ->
@@ -553,15 +559,15 @@ Proof.
 Qed.
 
 (* Format(env) of valid fields parses to the instant time.Date makes of the fields at the rendered precision *)
-Lemma format_fields_roundtrip : forall offset e f, std_markers e -> valid_fields f -> in_year_range (f_year f) ->
-  datetime_from_string offset e (format_of_fields e f)
+Lemma format_fields_roundtrip : forall fill offset e f, std_markers e -> valid_fields f -> in_year_range (f_year f) ->
+  datetime_from_string_with fill offset e (format_of_fields e f)
   = Some (from_wall offset (wall_of (f_year f) (f_month f) (f_day f) (f_hour f) (f_min f) (secs_of (e_tf e) (f_sec f)))
           * giga).
 Proof.
-  intros offset e [y m d h mi s ns] Hm (V & Vc & Hns) Hy.
+  intros fill offset e [y m d h mi s ns] Hm (V & Vc & Hns) Hy.
   cbn [f_year f_month f_day f_hour f_min f_sec f_ns] in *.
   destruct (valid_date_ranges _ _ _ V) as (Rm & Rd & _).
-  unfold datetime_from_string, format_of_fields. cbn [f_year f_month f_day f_hour f_min f_sec f_ns].
+  unfold datetime_from_string_with, format_of_fields. cbn [f_year f_month f_day f_hour f_min f_sec f_ns].
   destruct (date_text_ends (e_df e) y m d Hy Rm Rd) as (c & r & c' & E & Dc & Dc').
   destruct (time_text_last e h mi s Hm Vc) as (tr & tc & Et & Htc).
   assert (Htrim : trim_dt (date_text (e_df e) y m d ++ [32%N] ++ time_text e h mi s)
@@ -580,15 +586,22 @@ Proof.
 Qed.
 
 (* the statement on instants: format in the environment's zone, parse in the same environment *)
+Lemma format_datetime_roundtrip_with : forall fill offset e t, std_markers e -> in_year_range (f_year (fields_of offset t)) ->
+  let f := fields_of offset t in
+  datetime_from_string_with fill offset e (format_datetime offset e t)
+  = Some (from_wall offset (wall_of (f_year f) (f_month f) (f_day f) (f_hour f) (f_min f) (secs_of (e_tf e) (f_sec f)))
+          * giga).
+Proof.
+  intros fill offset e t Hm Hy f. unfold format_datetime. apply format_fields_roundtrip; try assumption.
+  apply fields_of_spec.
+Qed.
+
 Lemma format_datetime_roundtrip : forall offset e t, std_markers e -> in_year_range (f_year (fields_of offset t)) ->
   let f := fields_of offset t in
   datetime_from_string offset e (format_datetime offset e t)
   = Some (from_wall offset (wall_of (f_year f) (f_month f) (f_day f) (f_hour f) (f_min f) (secs_of (e_tf e) (f_sec f)))
           * giga).
-Proof.
-  intros offset e t Hm Hy f. unfold format_datetime. apply format_fields_roundtrip; try assumption.
-  apply fields_of_spec.
-Qed.
+Proof. intros offset e t. apply format_datetime_roundtrip_with. Qed.
 
 (* ------------------------------------------------------------------------------------------------ *)
 (* Part 7: the wall-clock fields of the re-read instant *)
@@ -680,3 +693,96 @@ Example roundtrip_hyps_sat :
   std_markers e /\ in_year_range (f_year f) /\ -86400 < offset (unix_of t) < 86400 /\ offset (unix_of t) mod 60 = 0
   /\ resolves offset (wall_of (f_year f) (f_month f) (f_day f) (f_hour f) (f_min f) (secs_of (e_tf e) (f_sec f))).
 Proof. vm_compute. repeat split; try discriminate; reflexivity. Qed.
+
+(* ------------------------------------------------------------------------------------------------ *)
+(* Part 8: the re-read INSTANT in the environment formats *)
+
+Lemma wall_of_sec : forall y m d h mi s s', wall_of y m d h mi s' = wall_of y m d h mi s - s + s'.
+Proof. intros. unfold wall_of. lia. Qed.
+
+(* when the two zone lookups of time.Date (at the rendered wall value read as UTC, and one offset earlier) see the
+   offset c that is in force at t, the re-read instant is t with the unrendered part (nanoseconds, and the seconds
+   for tt:mm / h:mm aa) removed *)
+Lemma format_datetime_instant_with : forall fill offset e t c, std_markers e -> in_year_range (f_year (fields_of offset t)) ->
+  let f := fields_of offset t in
+  let w := wall_of (f_year f) (f_month f) (f_day f) (f_hour f) (f_min f) (secs_of (e_tf e) (f_sec f)) in
+  offset (unix_of t) = c -> offset w = c -> offset (w - c) = c ->
+  datetime_from_string_with fill offset e (format_datetime offset e t)
+  = Some ((unix_of t - (f_sec f - secs_of (e_tf e) (f_sec f))) * giga).
+Proof.
+  intros fill offset e t c Hm Hy f w Hc H1 H2. rewrite (format_datetime_roundtrip_with fill offset e t Hm Hy).
+  fold f. fold w. f_equal. f_equal. unfold from_wall. rewrite H1, H2.
+  destruct (fields_of_spec offset t) as (_ & W & _). fold f in W.
+  unfold w. rewrite (wall_of_sec _ _ _ _ _ (f_sec f)), W. unfold wall. rewrite Hc. lia.
+Qed.
+
+(* a repeated hour: offset +2h before unix 10^9, +1h after; the earlier 03:36:40 re-reads as the later 03:36:40 *)
+Definition fold_zone (x : Z) : Z := if x <? 1000000000 then 7200 else 3600.
+Definition fold_env : env := Env YMD HMS [97; 109]%N [112; 109]%N 2026.
+Definition fold_instant : Z := 999999400 * giga.
+
+Lemma fold_witness :
+  std_markers fold_env /\ in_year_range (f_year (fields_of fold_zone fold_instant))
+  /\ (let f := fields_of fold_zone fold_instant in
+      resolves fold_zone (wall_of (f_year f) (f_month f) (f_day f) (f_hour f) (f_min f) (secs_of (e_tf fold_env) (f_sec f))))
+  /\ datetime_from_string fold_zone fold_env (format_datetime fold_zone fold_env fold_instant)
+     = Some (fold_instant + 3600 * giga)
+  /\ fields_of fold_zone (fold_instant + 3600 * giga) = fields_of fold_zone fold_instant.
+Proof.
+  split; [split; reflexivity|]. split; [vm_compute; split; discriminate|].
+  split; [vm_compute; reflexivity|]. split; vm_compute; reflexivity.
+Qed.
+
+(* ------------------------------------------------------------------------------------------------ *)
+(* Part 9: stored field values (FieldValues.Parse) *)
+
+Lemma render_nonempty : forall d, render d <> [].
+Proof.
+  intros d H. destruct (render_form d) as (neg & ip & fp & Hr & Hne & _). rewrite H in Hr.
+  symmetry in Hr. apply app_eq_nil in Hr. destruct Hr as [_ Hr]. apply app_eq_nil in Hr. destruct Hr as [Hr _].
+  contradiction.
+Qed.
+
+(* the number stored for the text form of a number is that number *)
+Lemma field_parse_number : forall fill offset e d, (int32_min <= dexp d)%Z ->
+  exists d' dt, field_parse fill offset e (render d) = Some (Some d', dt) /\ dec_eq d' d.
+Proof.
+  intros fill offset e d Hd. destruct (parse_number_render d Hd) as (d' & Hp & Heq).
+  exists d', (datetime_from_string_with fill offset e (render d)). split; [|exact Heq].
+  unfold field_parse. destruct (render d) eqn:E; [exfalso; exact (render_nonempty d E)|]. rewrite Hp. reflexivity.
+Qed.
+
+Lemma iso_nonempty : forall offset t, iso offset t <> [].
+Proof.
+  intros offset t. unfold iso, iso_of_fields. intros H. apply app_eq_nil in H. destruct H as [_ H].
+  apply app_eq_nil in H. destruct H as [H _]. discriminate.
+Qed.
+
+Lemma format_nonempty : forall offset e t, format_datetime offset e t <> [].
+Proof.
+  intros offset e t. unfold format_datetime, format_of_fields. intros H. apply app_eq_nil in H. destruct H as [_ H].
+  apply app_eq_nil in H. destruct H as [H _]. discriminate.
+Qed.
+
+(* the datetime stored for the ISO text of a datetime / for its environment format: as for ToXDateTime, whatever
+   the current time of day that FieldValues.Parse would fill in for a text without a time *)
+Lemma field_parse_iso : forall fill offset offset' e t,
+  in_year_range (f_year (fields_of offset t)) -> -86400 < offset (unix_of t) < 86400 ->
+  exists n, field_parse fill offset' e (iso offset t)
+            = Some (n, Some (t - t mod 1000 + (offset (unix_of t) - 60 * Z.quot (offset (unix_of t)) 60) * giga)).
+Proof.
+  intros fill offset offset' e t Hy Hoff. exists (parse_number (iso offset t)). unfold field_parse.
+  destruct (iso offset t) eqn:E; [exfalso; exact (iso_nonempty offset t E)|]. rewrite <- E.
+  rewrite iso_roundtrip_general_with by assumption. reflexivity.
+Qed.
+
+Lemma field_parse_format : forall fill offset e t, std_markers e -> in_year_range (f_year (fields_of offset t)) ->
+  let f := fields_of offset t in
+  exists n, field_parse fill offset e (format_datetime offset e t)
+            = Some (n, Some (from_wall offset (wall_of (f_year f) (f_month f) (f_day f) (f_hour f) (f_min f)
+                                                       (secs_of (e_tf e) (f_sec f))) * giga)).
+Proof.
+  intros fill offset e t Hm Hy f. exists (parse_number (format_datetime offset e t)). unfold field_parse.
+  destruct (format_datetime offset e t) eqn:E; [exfalso; exact (format_nonempty offset e t E)|]. rewrite <- E.
+  rewrite format_datetime_roundtrip_with by assumption. reflexivity.
+Qed.
